@@ -134,6 +134,8 @@ var vettedDroppedErrors = map[string]string{
 	"(x/pos/keeper.Keeper).unstakeAllMatureValidators|(x/pos/keeper.Keeper).FinishUnstakingValidator": "existing (`_ =`): the finish step was validated by ValidateValidatorFinishUnstaking just before; its remaining failure (pool transfer) is ignored",
 	"(x/gov/keeper.Keeper).ModifyParam|(types.Subspace).Update":                                       "existing (observation §5.4): a value that does not decode is ignored and the message still succeeds",
 	"x/gov.QueryACL|(x/auth/util.CLIContext).QueryWithData":                                           "client-side query helper, no state",
+	"x/pos.QueryAccountBalance|(x/auth/util.CLIContext).QueryWithData":                                "client-side query helper, no state",
+	"x/pos.newTx|crypto/keys/mintkey.UnarmorDecryptPrivKey":                                           "client-side transaction builder (runs in the CLI, not in the state machine): a wrong passphrase yields a transaction that fails signature verification",
 	"types.NewResponseFormatBroadcastTx|types.ParseABCILogs":                                          "client response formatting: unparsable logs are shown raw",
 	"types.NewResponseResultTx|types.ParseABCILogs":                                                   "client response formatting: unparsable logs are shown raw",
 	"types.newTxResponseCheckTx|types.ParseABCILogs":                                                  "client response formatting: unparsable logs are shown raw",
